@@ -1,12 +1,12 @@
 package rules
 
 import (
-	"sort"
 	"fmt"
 	"go/ast"
 	"go/constant"
 	"go/token"
 	"go/types"
+	"sort"
 	"strings"
 
 	"canvascheck/internal/core"
@@ -3974,4 +3974,190 @@ func E11ReflectCurrentImage(c *core.Ctx, r *core.Report) {
 	}
 	r.Count("E11.image-reflections", n)
 	r.Floor("E11.image-reflections", 4)
+}
+
+// E11HyphenGuard: a hyphen is drawn at a break only where the broken glyph is a soft hyphen.
+func E11HyphenGuard(c *core.Ctx, r *core.Report) {
+	r.Rule("E11.hyphen-guard", "text.GlyphsToItems turns both U+00AD (soft hyphen: break with a hyphen) and U+200B (zero width space: break without) into the same kind of item — a flagged penalty that owns one glyph — and tells them apart only by the penalty's width (the hyphen's advance, computed under `Text == U+00AD` only). Every place that materialises a hyphen at a chosen break (stores the rune '-' in a glyph's Text, or appends a Glyph literal with Text '-') is therefore guarded by a condition that separates the two: a comparison of a glyph's Text with U+00AD, or a test that the item's Width is non-zero. A guard on Flagged/Size alone draws a hyphen at zero width spaces and makes the line wider than the breaker accounted for")
+	tp := c.MustPkg("text")
+	// producer: the branch that handles both runes
+	prod := core.MustFuncDecl(tp, "GlyphsToItems")
+	r.Func("text.GlyphsToItems")
+	joint := false
+	ast.Inspect(prod.Body, func(m ast.Node) bool {
+		is, ok := m.(*ast.IfStmt)
+		if !ok {
+			return true
+		}
+		has := map[int64]bool{}
+		ast.Inspect(is.Cond, func(k ast.Node) bool {
+			if be, ok := k.(*ast.BinaryExpr); ok && be.Op == token.EQL {
+				for _, e := range []ast.Expr{be.X, be.Y} {
+					if v, ok := core.ConstInt(tp.TypesInfo, e); ok {
+						has[v] = true
+					}
+				}
+			}
+			return true
+		})
+		if has[0xAD] && has[0x200B] {
+			joint = true
+		}
+		return true
+	})
+	if !joint {
+		r.OK("E11.hyphen-guard", "text.GlyphsToItems|soft hyphen and zero width space share a branch", c.Pos(prod.Pos()), "the producer no longer treats the two runes in one branch; the consumers are not constrained by this rule")
+		return
+	}
+	r.OK("E11.hyphen-guard", "text.GlyphsToItems|soft hyphen and zero width space share a branch", c.Pos(prod.Pos()), "")
+	n := 0
+	for _, rel := range []string{"", "text"} {
+		p := c.MustPkg(rel)
+		info := p.TypesInfo
+		pkgName := "canvas"
+		if rel != "" {
+			pkgName = rel
+		}
+		isHyphen := func(e ast.Expr) bool {
+			v, ok := core.ConstInt(info, e)
+			if !ok || v != '-' {
+				return false
+			}
+			tv, ok := info.Types[e]
+			return ok && tv.Type != nil && (tv.Type.String() == "rune" || tv.Type.String() == "int32" || tv.Type.String() == "untyped rune")
+		}
+		isGlyphText := func(sel *ast.SelectorExpr) bool {
+			if sel.Sel.Name != "Text" {
+				return false
+			}
+			s := info.Selections[sel]
+			if s == nil || s.Kind() != types.FieldVal {
+				return false
+			}
+			t := s.Recv()
+			if pt, ok := t.(*types.Pointer); ok {
+				t = pt.Elem()
+			}
+			nt, ok := t.(*types.Named)
+			return ok && nt.Obj().Name() == "Glyph"
+		}
+		var separates func(e ast.Expr, depth int) bool
+		separates = func(e ast.Expr, depth int) bool {
+			found := false
+			ast.Inspect(e, func(k ast.Node) bool {
+				switch x := k.(type) {
+				case *ast.BinaryExpr:
+					switch x.Op {
+					case token.EQL:
+						for _, s := range []ast.Expr{x.X, x.Y} {
+							if v, ok := core.ConstInt(info, s); ok && v == 0xAD {
+								found = true
+							}
+						}
+					case token.NEQ, token.LSS, token.GTR:
+						// Width != 0, 0 < Width, Width > 0
+						for i, s := range []ast.Expr{x.X, x.Y} {
+							o := []ast.Expr{x.Y, x.X}[i]
+							se, ok := core.Unparen(s).(*ast.SelectorExpr)
+							if !ok || se.Sel.Name != "Width" {
+								continue
+							}
+							tv := info.Types[se.X]
+							if tv.Type == nil || !strings.HasSuffix(strings.TrimPrefix(tv.Type.String(), "*"), "text.Item") {
+								continue
+							}
+							if f, ok := constantFloat(core.ConstVal(info, o)); ok && f == 0 {
+								if x.Op == token.NEQ || (x.Op == token.LSS && i == 1) || (x.Op == token.GTR && i == 0) {
+									found = true
+								}
+							}
+						}
+					}
+				case *ast.CallExpr:
+					if depth < 1 {
+						if fn := core.CalleeOf(info, x); fn != nil && fn.Pkg() != nil {
+							for _, q := range c.Pkgs {
+								if q.Types == fn.Pkg() {
+									if cd := core.FuncDecl(q, fn.Name()); cd != nil && cd.Body != nil {
+										ast.Inspect(cd.Body, func(z ast.Node) bool {
+											if be, ok := z.(*ast.BinaryExpr); ok && be.Op == token.EQL {
+												for _, s := range []ast.Expr{be.X, be.Y} {
+													if v, ok := core.ConstInt(q.TypesInfo, s); ok && v == 0xAD {
+														found = true
+													}
+												}
+											}
+											return true
+										})
+									}
+								}
+							}
+						}
+					}
+				}
+				return true
+			})
+			return found
+		}
+		for _, fd := range core.AllFuncDecls(p) {
+			if fd.Body == nil || strings.HasSuffix(c.Fset.Position(fd.Pos()).Filename, "_test.go") {
+				continue
+			}
+			fname := pkgName + "." + core.FuncName(fd)
+			ord := 0
+			var stack []ast.Node
+			ast.Inspect(fd.Body, func(m ast.Node) bool {
+				if m == nil {
+					stack = stack[:len(stack)-1]
+					return true
+				}
+				stack = append(stack, m)
+				site := false
+				switch x := m.(type) {
+				case *ast.AssignStmt:
+					for i, l := range x.Lhs {
+						if se, ok := core.Unparen(l).(*ast.SelectorExpr); ok && i < len(x.Rhs) && isGlyphText(se) && isHyphen(x.Rhs[i]) {
+							site = true
+						}
+					}
+				case *ast.CompositeLit:
+					if tv := info.Types[x]; tv.Type != nil {
+						if nt, ok := tv.Type.(*types.Named); ok && nt.Obj().Name() == "Glyph" {
+							for _, el := range x.Elts {
+								if kv, ok := el.(*ast.KeyValueExpr); ok {
+									if id, ok := kv.Key.(*ast.Ident); ok && id.Name == "Text" && isHyphen(kv.Value) {
+										site = true
+									}
+								}
+							}
+						}
+					}
+				}
+				if !site {
+					return true
+				}
+				n++
+				ord++
+				key := fmt.Sprintf("%s|hyphen materialised at a break #%d is guarded by soft-hyphen-ness", fname, ord)
+				ok := false
+				for i := len(stack) - 2; i >= 0; i-- {
+					is, isIf := stack[i].(*ast.IfStmt)
+					if !isIf || stack[i+1] != ast.Node(is.Body) {
+						continue
+					}
+					if separates(is.Cond, 0) {
+						ok = true
+					}
+				}
+				if ok {
+					r.OK("E11.hyphen-guard", key, c.Pos(m.Pos()), "")
+				} else {
+					r.Fail("E11.hyphen-guard", key, c.Pos(m.Pos()), "a hyphen glyph is materialised here under a guard that does not separate U+00AD from U+200B (neither a comparison with U+00AD nor a non-zero test of the penalty's Width): a break at a zero width space is drawn with a hyphen the breaker did not account for")
+				}
+				return true
+			})
+		}
+	}
+	r.Count("E11.hyphen-sites", n)
+	r.Floor("E11.hyphen-sites", 2)
 }
